@@ -222,15 +222,16 @@ macro_rules! value_json {
   };
 }
 value_json!(c00_value_json_eq, 0, false);
-value_json!(c00_value_json_ne, 1, true);
-value_json!(c00_value_json_lt, 2, true);
-value_json!(c00_value_json_le, 3, true);
+value_json!(c00_value_json_ne, 1, false);
+value_json!(c00_value_json_lt, 2, false);
+value_json!(c00_value_json_le, 3, false);
 value_json!(c00_value_json_gt, 4, false);
 value_json!(c00_value_json_ge, 5, false);
 
 with_validator_stubs! {
 /// JSON: a negative document against a non-negative literal under `.ne` / `.lt` / `.le`
-/// (which it satisfies). Isolates a listed finding.
+/// (which it satisfies). Found a defect on the original tree (repaired by "fix: compare JSON
+/// integers outside the literal's own range by sign").
 #[kani::proof]
 #[kani::unwind(4)]
 fn c00_value_json_neg_vs_uint() {
@@ -360,8 +361,8 @@ value_json_u64!(c00_value_json_u64_gt, 4);
 
 with_validator_stubs! {
 /// `uint .size c` with 16 ≤ c ≤ 20: every 64-bit unsigned integer fits in 16 or more bytes.
-/// Isolates a listed finding (256^16 overflows the 128-bit power and the control rejects
-/// everything).
+/// Found a defect on the original tree (256^16 overflowed the 128-bit power and the control
+/// rejected everything; repaired).
 #[kani::proof]
 #[kani::unwind(24)]
 fn c00_value_json_size_ge16() {
@@ -444,6 +445,34 @@ fn c00_value_json_text_size() {
   kani::cover!(errs > 0 && !two);
   // `tstr .size N` with an unsigned N: exactly N bytes (RFC 8610 §3.8.1, `ip4 = bstr .size 4`)
   assert!((errs == 0) == (bytes == n));
+  core::mem::forget(r);
+  core::mem::forget(val);
+  core::mem::forget(cddl);
+}
+}
+
+with_validator_stubs! {
+/// JSON: a document above i64::MAX against a *negative* literal under every comparison:
+/// it is greater than and different from the literal.
+#[kani::proof]
+#[kani::unwind(4)]
+fn c00_value_json_big_vs_int() {
+  let cddl = CDDL { rules: vec![], comments: None };
+  let v: u64 = kani::any();
+  kani::assume(v > i64::MAX as u64);
+  let m: usize = kani::any();
+  kani::assume(m >= 1 && m <= isize::MAX as usize);
+  let ctl: u8 = kani::any();
+  kani::assume(ctl <= 5);
+  let lit = Lit::INT(-(m as isize));
+  let mut val = JSONValidator::new(&cddl, JV::Number(v.into()), None);
+  cddl::validator::json::verif_hooks_state::set_ctrl(&mut val, op_of(ctl));
+  let r = <JSONValidator as Visitor<'_, '_, JErr>>::visit_value(&mut val, &lit);
+  let errs = cddl::validator::json::verif_hooks_occ::error_count(&val);
+  assert!(r.is_ok());
+  assert!((errs == 0) == cmp(ctl, v as i128, -(m as i128)));
+  kani::cover!(errs == 0 && ctl == 4);
+  kani::cover!(errs > 0 && ctl == 2);
   core::mem::forget(r);
   core::mem::forget(val);
   core::mem::forget(cddl);
